@@ -239,7 +239,7 @@ func fieldPath(path string) []string {
 	return strings.Split(path, ".")
 }
 
-func unmarshalJsonFile(path string, i interface{}) (err error) {
+func unmarshalJsonFile(path string, i interface{}, compressed bool) (err error) {
 	var data []byte
 	var in *os.File
 	var r io.Reader
@@ -250,7 +250,8 @@ func unmarshalJsonFile(path string, i interface{}) (err error) {
 	defer in.Close()
 
 	r = in
-	if strings.HasSuffix(path, compressedExtension) {
+	// an uncompressed file may have a name ending as compressed files do
+	if compressed {
 		if r, err = gzip.NewReader(in); err != nil {
 			return
 		}
